@@ -201,6 +201,11 @@ def scripted():
     out.append(("failing multi-file load with user classes, then valid loads",
                 [_op("NewMM", 1, "imp.classes"), _op("LoadFile", 1, "unknown"), _op("LoadFile", 1, "valid"),
                  _op("LoadStr", 1, "noimp"), _op("LoadFile", 1, "unknown"), _op("LoadFile", 1, "noimp")]))
+    out.append(("leaked instrumentation levels and later failing loads",
+                [_op("NewMM", 1, "imp.plain"), _op("NewMM", 2, "imp.classes"), _op("LoadFile", 2, "unknown"),
+                 _op("LoadFile", 2, "syntax"), _op("LoadFile", 2, "unknown"), _op("LoadFile", 2, "unknown"),
+                 _op("LoadStr", 2, "syntax"), _op("LoadFile", 2, "impbad"), _op("LoadStr", 2, "valid"),
+                 _op("LoadFile", 2, "syntax"), _op("LoadFile", 2, "syntax"), _op("LoadFile", 2, "valid")]))
     return out
 
 
@@ -502,7 +507,8 @@ def run(rep):
                 exp = expected_of(work, small[:k + 1], pool0).get(k + 1, {})
             else:
                 small = tr
-                k = min(got[t]["reached"], len(small) - 1)
+                far = max([got[t]["reached"]] + [alt[ds][t]["reached"] for ds in alt])   # first call no listed
+                k = min(far, len(small) - 1)                                             # deviation explains
                 small = small[:k + 1]
                 exp = {}
             e = small[k]
